@@ -53,10 +53,12 @@ inline std::vector<uint8_t> applyDamage(const std::vector<uint8_t>& bytes, const
 	}
 	if (v == "flip") {
 		Rng r(d.u("seed", 1));
+		uint64_t base = d.u("base", 0);
+		if (base > b.size()) base = b.size();
 		uint64_t region = d.u("region", b.size());
-		if (region > b.size()) region = b.size();
+		if (region > b.size() - base) region = b.size() - base;
 		uint64_t n = d.u("n", 1);
-		for (uint64_t i = 0; i < n && region; ++i) { uint64_t bit = r.below(region * 8); b[bit >> 3] ^= static_cast<uint8_t>(1u << (bit & 7)); }
+		for (uint64_t i = 0; i < n && region; ++i) { uint64_t bit = r.below(region * 8); b[base + (bit >> 3)] ^= static_cast<uint8_t>(1u << (bit & 7)); }
 		return b;
 	}
 	if (v == "splice") {
@@ -85,7 +87,7 @@ inline std::vector<uint64_t> boundaryValues(uint64_t orig, int width, uint64_t f
 
 // The generic part of a sweep: every prefix (small files) or structural cut points (large files),
 // the field x boundary-value grid, seeded flips and splices in the header region.
-inline std::vector<Line> enumerateGenericDamage(const std::vector<uint8_t>& bytes, const std::vector<Field>& fields, size_t headerLen, uint64_t seed, bool thorough) {
+inline std::vector<Line> enumerateGenericDamage(const std::vector<uint8_t>& bytes, const std::vector<Field>& fields, size_t headerLen, uint64_t seed, bool thorough, size_t headerStart = 0) {
 	std::vector<Line> out;
 	auto trunc = [&](size_t k) { Line l = mkline("damage", "truncate"); l.set("k", k); out.push_back(l); };
 	if (bytes.size() <= 4096) for (size_t k = 0; k < bytes.size(); ++k) trunc(k);
@@ -110,7 +112,7 @@ inline std::vector<Line> enumerateGenericDamage(const std::vector<uint8_t>& byte
 	}
 	Rng r(seed ^ 0x666c6970);
 	size_t nflips = thorough ? 96 : 32;
-	for (size_t i = 0; i < nflips; ++i) { Line l = mkline("damage", "flip"); l.set("seed", hex64(r.next())).set("n", 1 + r.below(8)).set("region", headerLen ? headerLen : bytes.size()); out.push_back(l); }
+	for (size_t i = 0; i < nflips; ++i) { Line l = mkline("damage", "flip"); l.set("seed", hex64(r.next())).set("n", 1 + r.below(8)).set("region", headerLen ? headerLen : bytes.size()); if (headerStart) l.set("base", headerStart); out.push_back(l); }
 	size_t nsplice = thorough ? 32 : 8;
 	for (size_t i = 0; i < nsplice && headerLen >= 16; ++i) {
 		size_t len = 4 * (1 + static_cast<size_t>(r.below(3)));
